@@ -23,6 +23,7 @@ CONFIG = dict(
         dict(name="c14_poll_timeout", bounded="timeout <= 143 ms (<= 12 wait rounds fully unwound)"),
         dict(name="c14_poll_infinite", bounded="<= 12 wait rounds"),
         dict(name="c14_poll_long", bounded="<= 12 wait rounds"),
+        dict(name="c14_poll_up_to_5s", tier="thorough", bounded="143 ms < timeout <= 5 000 ms (<= 330 wait rounds fully unwound)", timeout=3600),
         dict(name="c14_select_timeout", bounded="timeout <= 143 000 us (<= 12 wait rounds fully unwound)"),
         dict(name="c14_select_seconds", bounded="<= 12 wait rounds"),
         dict(name="c14_select_up_to_5s", tier="thorough", bounded="tv_sec = 0, 143 000 us < tv_usec <= 5 000 000 us (<= 330 wait rounds fully unwound)", timeout=3600),
@@ -41,9 +42,9 @@ CONFIG = dict(
         "clock: arbitrary monotone u64",
         "pthread_cond_timedwait deadline before 2096",
     ],
-    bounds="conversions and EINVAL: full domain, loop-free; slice loops: <= 12 wait rounds (143 ms of requested waiting) / <= 9 clock readings; within that the input domain is complete: poll 0..143 ms exact, >= 144 ms and negative not yet returned; select 0..143 000 us exact, longer (every tv_sec up to i64::MAX) and NULL not yet returned (enforced by kani::assume in the environment so unwinding assertions hold); thorough tier: select with tv_sec = 0 and 143 000 < tv_usec <= 5 000 000 us exact (330 rounds fully unwound, about 30 min)",
+    bounds="conversions and EINVAL: full domain, loop-free; slice loops: <= 12 wait rounds (143 ms of requested waiting) / <= 9 clock readings; within that the input domain is complete: poll 0..143 ms exact, >= 144 ms and negative not yet returned; select 0..143 000 us exact, longer (every tv_sec up to i64::MAX) and NULL not yet returned (enforced by kani::assume in the environment so unwinding assertions hold); thorough tier: select with tv_sec = 0 and 143 000 < tv_usec <= 5 000 000 us exact, and poll with 143 < timeout <= 5 000 ms exact (330 rounds fully unwound, about 30 min each)",
     manifest=dict(
-        text="Proof for the conversions and the EINVAL cases (full input domain, loop-free): sleep/usleep/nanosleep hand the event loop exactly the requested time in the requested unit and return 0; an invalid timespec (nanosleep), a negative timeval (select) or an invalid abstime (pthread_cond_timedwait) is rejected with the native error and never waits or panics. Bounded stand-in for the slice loops (stated per unit, never counted as proved): with nothing ready, poll(t <= 143 ms) and select(tv <= 143 000 us) return 0 only after the waits they requested cover the requested time in the requested unit (ms for poll, us for select) and no more than that (+ < 1 ms for select, which works in whole milliseconds); poll(t >= 144 ms up to c_int::MAX), select(every longer tv up to tv_sec = i64::MAX) and infinite timeouts have not returned after 12 wait rounds (143 ms of requested waiting); in the thorough tier select(tv_usec up to 5 s, which spans the values where the field exceeds one second and where it no longer fits 32 bits of nanoseconds) is exact as well; timed_wait_just returns only at or after entry + d; pthread_cond_timedwait reports ETIMEDOUT only once the absolute deadline has passed on a symbolic monotone clock (the length of the slices both wait in, 10 ms today, is deliberately not part of the contract). Tests sleep 1 ms / 1 s once and accept any duration above the lower bound; select/poll/cond_timedwait are never called with a timeout.",
+        text="Proof for the conversions and the EINVAL cases (full input domain, loop-free): sleep/usleep/nanosleep hand the event loop exactly the requested time in the requested unit and return 0; an invalid timespec (nanosleep), a negative timeval (select) or an invalid abstime (pthread_cond_timedwait) is rejected with the native error and never waits or panics. Bounded stand-in for the slice loops (stated per unit, never counted as proved): with nothing ready, poll(t <= 143 ms) and select(tv <= 143 000 us) return 0 only after the waits they requested cover the requested time in the requested unit (ms for poll, us for select) and no more than that (+ < 1 ms for select, which works in whole milliseconds); poll(t >= 144 ms up to c_int::MAX), select(every longer tv up to tv_sec = i64::MAX) and infinite timeouts have not returned after 12 wait rounds (143 ms of requested waiting); in the thorough tier select(tv_usec up to 5 s, which spans the values where the field exceeds one second and where it no longer fits 32 bits of nanoseconds) and poll(up to 5 s) are exact as well; timed_wait_just returns only at or after entry + d; pthread_cond_timedwait reports ETIMEDOUT only once the absolute deadline has passed on a symbolic monotone clock (the length of the slices both wait in, 10 ms today, is deliberately not part of the contract). Tests sleep 1 ms / 1 s once and accept any duration above the lower bound; select/poll/cond_timedwait are never called with a timeout.",
         note="Partial claim: wall-clock slack is not decidable by a contract over one call. Trusted: wait_event recorder, symbolic clock, `nothing ready` inner calls, plain-thread caller, shims. Bounds as stated per unit in the evidence.",
         technique="contract-based deductive verification: Kani harness contracts on the real hooks (full-domain for conversions, bounded unwinding with a symbolic clock for slice loops)",
     ),
@@ -92,6 +93,9 @@ def native_replay(v, path):
         return d
     if h == "c14_select_up_to_5s" and vals and 0 <= vals[0] <= 5_000_000:
         d = _run("select_time", 0, vals[0]); d["decisive"] = False  # an early return is definite
+        return d
+    if h == "c14_poll_up_to_5s" and vals and 0 <= vals[0] <= 5_000:
+        d = _run("poll_time", vals[0], 0); d["decisive"] = False
         return d
     if h == "c14_poll_long" and vals and 144 <= vals[0] <= 1500:
         d = _run("poll_time", vals[0], 0); d["decisive"] = False
